@@ -123,11 +123,23 @@ type DiskSeam struct {
 	Outside []string          // confinement breaches of the current step
 	Fired   []*Fault          // faults that fired in the current step
 	Yield   func(*simos.Call) // optional scheduling point (concurrent engine)
+
+	// the client goes away (the request context is cancelled) just before the
+	// CancelAt-th file-system call of the step; -1: never
+	CancelAt  int
+	Cancel    func()
+	Cancelled bool
 }
 
 func (d *DiskSeam) BeginStep(faults []Fault) {
 	d.ordinal = 0
 	d.faults = nil
+	d.CancelAt, d.Cancel, d.Cancelled = -1, nil, false
+	for i := range faults {
+		if faults[i].Seam == "ctx" && faults[i].Kind == "at-call" {
+			d.CancelAt = faults[i].At
+		}
+	}
 	d.Calls = d.Calls[:0]
 	d.Outside = nil
 	d.Fired = nil
@@ -153,6 +165,10 @@ func (d *DiskSeam) Before(c *simos.Call) *simos.Inject {
 	}
 	j := d.ordinal
 	d.ordinal++
+	if j == d.CancelAt && d.Cancel != nil && !d.Cancelled {
+		d.Cancelled = true
+		d.Cancel()
+	}
 	rec := SeamCall{Fn: c.Fn, Op: c.Op, Path: c.Path, Path2: c.Path2, Writable: c.Writable}
 	block := false
 	for _, p := range []string{c.Path, c.Path2} {
